@@ -5,12 +5,16 @@ import (
 	"encoding/hex"
 	"encoding/json"
 	"fmt"
+	"os"
+	"path/filepath"
 	"sort"
 	"strings"
 	"sync"
 	"time"
 
 	"github.com/lidofinance/dc4bc/client/api/dto"
+	"github.com/lidofinance/dc4bc/client/modules/state"
+	oprepo "github.com/lidofinance/dc4bc/client/repositories/operation"
 	"github.com/lidofinance/dc4bc/client/types"
 
 	"verifharness/oracle"
@@ -170,7 +174,7 @@ func (s *c14Scenario) serial(first int) (string, [2]int) {
 }
 
 func checkC14(c *Ctx) {
-	c.Rule = "controlled two-activity scheduler: one API request and one poll step (1-3 board messages) run in goroutines on the same real node service; every State/Storage call first asks for the baton. All schedules with at most 2 (quick) / 3 (thorough) pre-emptions are enumerated per (request kind, message kind) scenario, each replayed from a snapshot; the final logical state (operation pool, tombstones, round projections, signature stores, offset, messages posted; ids/times masked) must equal the final state of one of the two serial orders. Thorough adds a free-running soak of the same pairs on real LevelDB with the real Poll() under the Go race detector. A schedule after which every unfinished activity is parked on a mutex for good (wait states from the goroutine dump, no scheduling point reached on 12 consecutive samples) is a violation (deadlock). One schedule per scenario injects a slow board send; a refused reset on real LevelDB followed by a poll step runs under the hang observation. distinct = distinct executed interleavings (grant traces)"
+	c.Rule = "controlled two-activity scheduler: one API request and one poll step (1-3 board messages) run in goroutines on the same real node service; every State/Storage call first asks for the baton. All schedules with at most 2 (quick) / 3 (thorough) pre-emptions are enumerated per (request kind, message kind) scenario, each replayed from a snapshot; the final logical state (operation pool, tombstones, round projections, signature stores, offset, messages posted; ids/times masked) must equal the final state of one of the two serial orders. Thorough adds a free-running soak of the same pairs on real LevelDB with the real Poll() under the Go race detector. A schedule after which every unfinished activity is parked on a mutex for good (wait states from the goroutine dump, no scheduling point reached on 12 consecutive samples) is a violation (deadlock). One schedule per scenario injects a slow board send; a refused reset on real LevelDB followed by a poll step runs under the hang observation; a reset onto directory D repeated (second request refused: D is in use) must leave the state in D on disk (a copy is opened like a restarted node would). distinct = distinct executed interleavings (grant traces)"
 	c.Assumptions = []string{"MemState (one lock per call, like LevelDBState.Get/Set) for the enumerated schedules; LevelDBState itself only in the race soak", "scheduling granularity = State/Storage interface calls"}
 	builders := []func(seed uint64) (*c14Scenario, error){scnSubmitVsProposal, scnApproveVsOtherRound, scnReinitFinishVsOtherRound, scnResetVsPoll, scnSaveOffsetVsPoll, scnSubmitVsSameRound, scnSubmitVsSignatures, scnReinitFinishVsSameRoundProposal, scnReinitFinishVsOtherReinit, scnSecondApproveVsOtherRound, scnListOperationsVsPoll, scnSubmitNewerOfTwoVsOtherRound}
 	maxPre := c.Pick(2, 3)
@@ -271,6 +275,7 @@ func checkC14(c *Ctx) {
 	})
 	c.Exhaustive = true
 	c14RefusedReset(c)
+	c14ResetRepeated(c)
 	if c.Thorough() {
 		raceSoak(c)
 	}
@@ -747,6 +752,80 @@ func viaREST(v *world.Node) *world.HTTPOp {
 // effect at all on what the poller does next. Played on the real LevelDB store (the request fails inside
 // LevelDBState.Reset), in both serial orders; the poll step runs under the hang observation (a request that
 // leaves a lock behind shows as a poller parked on a mutex for good).
+// c14ResetRepeated: the same reset request given twice (an operator repeats the command, or two operators run
+// it): the first moves the node onto directory D, the second names D again and is refused because D is the
+// store in use. A refused request must have no effect: what the node holds (pending operation, round, read
+// position) must still be on disk in D - judged by opening a copy of D the way a restarted node would.
+func c14ResetRepeated(c *Ctx) {
+	w, err := world.NewWorld(world.Options{N: 2, T: 2, Seed: c.Seed*257 + 3, UseLevelDB: true})
+	if err != nil {
+		c.Inconclusive("repeated-reset world: %v", err)
+		return
+	}
+	defer w.Close()
+	v := w.Nodes[1]
+	round, err := w.StartDKG(0, 2, now())
+	if err != nil {
+		c.Inconclusive("repeated-reset world: %v", err)
+		return
+	}
+	if _, err := v.PollStep(0); err != nil {
+		c.Inconclusive("repeated-reset world: poll: %v", err)
+		return
+	}
+	dir := filepath.Join(w.Dir, "state-after-reset")
+	wit := map[string]interface{}{"scenario": "reset-state onto directory D, then the same request again (refused: D is in use), then poll"}
+	if _, err := viaREST(v).Raw("POST", "/resetState", nil, mkReq(map[string]interface{}{"new_state_dbdsn": dir})); err != nil {
+		c.Inconclusive("repeated-reset world: first reset refused: %v", err)
+		return
+	}
+	_, _ = v.PollStep(0)
+	if len(w.PendingOps(v)) == 0 {
+		c.Inconclusive("repeated-reset world: no pending operation after the first reset and replay")
+		return
+	}
+	_, rerr := viaREST(v).Raw("POST", "/resetState", nil, mkReq(map[string]interface{}{"new_state_dbdsn": dir}))
+	c.Eval(1)
+	c.Distinct(fmt.Sprintf("repeated-reset|second-refused=%v", rerr != nil))
+	if rerr == nil {
+		c.Note("the second reset onto the directory in use was accepted (not judged)")
+		return
+	}
+	var perr error
+	if hung, stk := runOrHang(func() { _, perr = v.PollStep(0) }); hung {
+		wit["stack"] = trunc(stk, 1500)
+		c.Violate("C14/deadlock:reset-state-refused||poll", "after a repeated reset request that was refused the poller never gets through again", wit)
+		return
+	}
+	if perr != nil || len(w.PendingOps(v)) == 0 || int(v.Offset()) != w.Board.Len() {
+		c.Violate("C14/not-equivalent-to-a-serial-order:reset-state-refused||poll", fmt.Sprintf("after a refused repeated reset and a poll: err=%v, %d pending operation(s), offset %d of %d (round %s in %q)", perr, len(w.PendingOps(v)), v.Offset(), w.Board.Len(), trunc(round, 6), NodeState(v, round)), wit)
+		return
+	}
+	// what a restarted node would find in D
+	cp := filepath.Join(w.Dir, "state-after-reset-copy")
+	if err := world.CopyDir(dir, cp); err != nil {
+		c.Violate("C14/refused-reset-lost-the-durable-state", fmt.Sprintf("after a refused repeated reset the node's state directory cannot be read any more: %v", err), wit)
+		return
+	}
+	_ = os.Remove(filepath.Join(cp, "LOCK"))
+	st, err := state.NewLevelDBState(cp, world.Topic)
+	if err != nil {
+		c.Violate("C14/refused-reset-lost-the-durable-state", fmt.Sprintf("after a refused repeated reset a copy of the node's state directory does not open: %v", err), wit)
+		return
+	}
+	off, _ := st.LoadOffset()
+	nOps := -1
+	if repo, err := oprepo.NewOperationRepo(st, world.Topic); err == nil {
+		if ops, err := repo.GetOperations(); err == nil {
+			nOps = len(ops)
+		}
+	}
+	if int(off) != int(v.Offset()) || nOps != len(w.PendingOps(v)) {
+		c.Violate("C14/refused-reset-lost-the-durable-state", fmt.Sprintf("after a refused repeated reset the running node shows %d pending operation(s) at offset %d, a node restarted on its state directory finds %d at offset %d", len(w.PendingOps(v)), v.Offset(), nOps, off), wit)
+	}
+	c.Add("repeated_resets_judged_on_disk", 1)
+}
+
 func c14RefusedReset(c *Ctx) {
 	for _, order := range []string{"reset-then-poll", "poll-then-reset-then-poll"} {
 		w, err := world.NewWorld(world.Options{N: 2, T: 2, Seed: c.Seed*251 + uint64(len(order)), UseLevelDB: true})
